@@ -41,6 +41,8 @@ RULE = (
     "a factory-made / inherited / missing resource; distinct = (signature source, states, call site, order)."
 )
 DECIDING = {
+    "calls_with_extra_positional_args": "calls passing additional positional arguments into *args in front of keyword-only injected parameters",
+    "first_call_failed_on_unresolved_forward_ref": "functions first called while a forward reference in their annotations did not exist yet, then called again",
     "calls_compared": "decorated calls compared with explicit lookups",
     "injected_params_compared": "injected parameters compared by identity",
     "string_annotations": "string (forward-reference) annotations",
@@ -101,13 +103,17 @@ def gen_signature(rng: Any) -> dict[str, Any]:
         inj.append({"arg": f"r{i}", "type": t, "name": name, "spelling": spelling, "as_string": rng.random() < 0.4,
                     "kwonly": rng.random() < 0.5, "state": rng.choice(STATES), "explicit_default_name": rng.random() < 0.5})
     local_classes = rng.random() < 0.3
+    if not local_classes and rng.random() < 0.2:
+        # one annotation is a forward reference to a module-level name that is only defined after the function was called once
+        inj[0]["late"] = True
+        inj[0]["as_string"] = True
     return {"pos": pos, "var_args": rng.random() < 0.3, "kwonly": [f"k{i}" for i in range(rng.randint(0, 2))], "var_kw": rng.random() < 0.3,
             "inj": inj, "is_async": rng.random() < 0.5, "local_classes": local_classes, "future_annotations": rng.random() < 0.3}
 
 
 def build_source(sig: dict[str, Any]) -> str:
     def ann(i: dict[str, Any]) -> str:
-        s = i["spelling"].replace("T", i["type"])
+        s = i["spelling"].replace("T", ("Late" if i.get("late") else "") + i["type"])
         return repr(s) if i["as_string"] else s
 
     def marker(i: dict[str, Any]) -> str:
@@ -269,6 +275,11 @@ async def scenario(case: dict[str, Any], out: dict[str, Any]) -> None:
     pos_args = [f"v_{p['name']}" for p in sig["pos"] if not p["default"] or case["pass_defaults"]]
     # extra *args can only be passed positionally *after* the positional-or-keyword injected parameters, which would
     # mean passing injected parameters explicitly: excluded (DESIGN.md section 4)
+    extra_args: tuple[str, ...] = ()
+    if sig["var_args"] and all(i["kwonly"] for i in sig["inj"]) and len(pos_args) == len(sig["pos"]):
+        # every injected parameter is keyword-only: additional positional arguments simply land in *args
+        extra_args = tuple(f"x{j}" for j in range(case.get("n_extra_args", 3)))
+        pos_args = pos_args + list(extra_args)
     kw_args = {k: f"v_{k}" for k in sig["kwonly"] if case["pass_kwonly"]}
     if sig["var_kw"]:
         kw_args["extra_kw"] = "v_extra"
@@ -279,6 +290,18 @@ async def scenario(case: dict[str, Any], out: dict[str, Any]) -> None:
         if current_context() is not ctx:
             bad("inject-harness", "harness: wrong current context")
         before: tuple[dict[str, Any], BaseException | None] | None = None
+        late = [i for i in sig["inj"] if i.get("late")]
+        if late and ("Late" + late[0]["type"]) not in ns:
+            # the forward reference cannot be resolved yet: whatever this call does, once the name exists the function must
+            # behave like explicit lookups
+            try:
+                r0 = target(*pos_args, **kw_args)
+                if sig["is_async"]:
+                    await r0
+            except Exception:
+                inc("first_call_failed_on_unresolved_forward_ref")
+            for t in ("RA", "RB", "RC"):
+                ns["Late" + t] = TYPES[t]
         if case["explicit_first"]:
             before = await explicit(ctx)
         n_body = len(body_runs)
@@ -359,8 +382,11 @@ async def scenario(case: dict[str, Any], out: dict[str, Any]) -> None:
                 bad("inject-ordinary-arg", f"keyword-only argument {k} arrived as {got.get(k)!r}, expected {want!r}")
         if sig["var_kw"] and got.get("kw") != {"extra_kw": "v_extra"}:
             bad("inject-ordinary-arg", f"**kw arrived as {got.get('kw')!r}")
-        if sig["var_args"] and got.get("args") != ():
-            bad("inject-ordinary-arg", f"*args arrived as {got.get('args')!r}")
+        if sig["var_args"]:
+            if extra_args:
+                inc("calls_with_extra_positional_args")
+            if got.get("args") != extra_args:
+                bad("inject-ordinary-arg", f"*args arrived as {got.get('args')!r}, passed {extra_args!r}")
 
     site = case["site"]
 
@@ -457,7 +483,7 @@ def gen_case(idx: int, seed: int, tier: str) -> Any:
     rng = case_rng(PROPERTY, seed, idx)
     return {"sig": gen_signature(rng), "site": rng.choice(["root", "nested", "nested", "task", "concurrent"]), "explicit_first": rng.random() < 0.5,
             "pass_defaults": rng.random() < 0.5, "pass_kwonly": rng.random() < 0.5, "backend": rng.choice(["asyncio", "trio"]),
-            "rejections": idx % 50 == 0, "decorate_in": rng.choice(["closed", "closed", "open"])}
+            "rejections": idx % 50 == 0, "decorate_in": rng.choice(["closed", "closed", "open"]), "n_extra_args": rng.choice([1, 2, 3, 5])}
 
 
 def run_case(case: Any) -> dict[str, Any]:
